@@ -77,7 +77,7 @@ def call_getter(obj, spec: dict, getter: str):
         if getter == "full_array":
             return obj.get_full_grid_as_array()
         if getter == "total_volumes":
-            return np.asarray(obj.get_total_volumes())
+            return obj.get_total_volumes()  # as handed out: a list is not an array to the caller
         if getter == "full_adjacency":
             return obj.get_full_adjacency()
         if getter == "full_borders":
